@@ -190,6 +190,20 @@ CHECKS = {
         "rebuild that the builder rejects (a step names an unreported column) is counted, not judged.",
         "4/C10",
     ),
+    "C16": (
+        "reference-model runtime monitor: pure-Python join + SQLite's native join as oracles for 4 backends",
+        "Single natural_join pipelines (optionally over small sub-pipelines) for every join type x key specification "
+        "(one key, two keys, differently named, mixed, empty for cross) over table pairs of 0-6 rows with duplicate "
+        "keys, null keys on either/both sides, unmatched rows, empty sides, shared non-key columns with nulls on the "
+        "left, key-named non-key columns on the other side. A pure-Python nested-loop reference and a hand-written SQL "
+        "join executed natively by SQLite 3.40 must agree first; then Pandas, Polars (eager/lazy; a raise is a refusal), "
+        "the SQLite dialect (emulated RIGHT/FULL) and the PostgreSQL dialect on the SQLite surrogate must each return "
+        "exactly those rows.",
+        "Trusted: the 40-line reference join cross-checked against SQLite's native joins on every case. Recorded "
+        "findings are limited to the SQLite dialect's FULL join emulation and attributed narrowly (the same join "
+        "without the null-key rows must be right).",
+        "4/C16",
+    ),
 }
 
 NOT_BUILT = "check not built yet (build in progress, see DESIGN.md section 8)"
